@@ -229,9 +229,16 @@ pub fn render_interface_item(p: &Program, i: &Interface) -> String {
         let Role::Handler(kind) = m.role else { continue };
         let e = if m.err == ErrTy::Custom { "Self::Error" } else { "StdError" };
         let sg = sig(m, kind, &[], &assocs, sc, sq, e, true);
-        writeln!(s, "    {}", sg.attr).unwrap();
+        // forwarded attributes are written above or below `sv::msg` (both are legal)
+        let above = m.name.len() % 2 == 0;
+        if !above {
+            writeln!(s, "    {}", sg.attr).unwrap();
+        }
         for l in variant_attrs(m).lines() {
             writeln!(s, "    {}", l.trim_start()).unwrap();
+        }
+        if above {
+            writeln!(s, "    {}", sg.attr).unwrap();
         }
         writeln!(s, "    fn {}({}) -> {};", m.name, sg.params, sg.ret).unwrap();
     }
@@ -314,9 +321,15 @@ pub fn contract_method_texts(p: &Program) -> Vec<String> {
         let sg = sig(m, kind, &params, &[], c, q, e, true);
         let id = format!("ctr::{}::{}", kind.attr(), m.name);
         let resp_conc = resp_rust(m.resp, &params);
-        writeln!(s, "    {}", sg.attr).unwrap();
+        let above = m.name.len() % 2 == 0;
+        if !above {
+            writeln!(s, "    {}", sg.attr).unwrap();
+        }
         for l in variant_attrs(m).lines() {
             writeln!(s, "    {}", l.trim_start()).unwrap();
+        }
+        if above {
+            writeln!(s, "    {}", sg.attr).unwrap();
         }
         writeln!(s, "    fn {}({}) -> {} {{", m.name, sg.params, sg.ret).unwrap();
         writeln!(s, "        {}", echo_body(p, m, kind, &id, c, q, custom_err, &resp_conc)).unwrap();
